@@ -15,6 +15,9 @@ pub enum World {
     Bulk(Script, u8, u32, u32),
     /// `count` new_term calls (ids first, first+stride, ..; name "t"), nothing else, build_minimal
     Many { version: (u16, u8, u8), first: u32, stride: u32, count: u32 },
+    /// the ontology of the inner world with user-chosen category / modifier groups
+    /// (categories_mut() / modifier_mut())
+    Custom(Box<World>, Vec<u32>, Vec<u32>),
 }
 
 pub struct Built {
@@ -38,6 +41,7 @@ impl World {
                 ],
             ),
             World::Sub(w, root, leaves) => V::C("WSub", vec![w.to_v(), crate::v::n(*root), crate::v::ln(leaves)]),
+            World::Custom(w, cats, mods) => V::C("WCustom", vec![w.to_v(), crate::v::ln(cats), crate::v::ln(mods)]),
             World::Jax { transitive, obo, genes, hpoa } => V::C(
                 "WJax",
                 vec![V::C(if *transitive { "true" } else { "false" }, vec![]), crate::v::bytes(obo), crate::v::bytes(genes), crate::v::bytes(hpoa)],
@@ -90,6 +94,25 @@ impl World {
                 let r = crate::catch(std::panic::AssertUnwindSafe(|| if tr { Ontology::from_standard_transitive(&d) } else { Ontology::from_standard(&d) }));
                 let _ = std::fs::remove_dir_all(&dir);
                 r.map(|result| Built { codes: vec![], result })
+            }
+            World::Custom(w, cats, mods) => {
+                let src = w.build()?;
+                match src.result {
+                    Err(e) => Some(Built { codes: src.codes, result: Err(e) }),
+                    Ok(mut o) => {
+                        let codes = src.codes;
+                        crate::catch(std::panic::AssertUnwindSafe(move || {
+                            *o.categories_mut() = hpo::term::HpoGroup::from(cats.clone());
+                            let m = o.modifier_mut();
+                            m.clear();
+                            for x in mods {
+                                m.insert(*x);
+                            }
+                            o
+                        }))
+                        .map(|o| Built { codes, result: Ok(o) })
+                    }
+                }
             }
             World::Sub(w, root, leaves) => {
                 let src = w.build()?;
@@ -183,6 +206,38 @@ pub fn gen_sub_args(rng: &mut Rng, f: &Facts) -> (u32, Vec<u32>) {
 pub fn gen_world(rng: &mut Rng, o: Opts, tags: &mut Vec<&'static str>) -> (World, Facts) {
     let (w, f) = gen_world_base(rng, o, tags);
     (w, f)
+}
+
+/// like gen_world, but one time in `one_in` the category and modifier groups are replaced by
+/// user-chosen ones: arbitrary terms of the ontology (not only children of the two standard roots),
+/// sometimes an id that is no term, sometimes empty
+pub fn gen_world_custom(rng: &mut Rng, o: Opts, tags: &mut Vec<&'static str>, one_in: u64) -> (World, Facts) {
+    let (w, f) = gen_world_base(rng, o, tags);
+    if rng.chance(1, one_in) {
+        let ids = f.ids();
+        let mut pickset = |rng: &mut Rng| -> Vec<u32> {
+            let mut v: Vec<u32> = ids.iter().copied().filter(|_| rng.chance(1, 4)).collect();
+            if rng.chance(1, 6) {
+                v.push(rng.range(1, 400) as u32); // possibly not a term
+            }
+            if rng.chance(1, 8) {
+                v.clear();
+            }
+            if rng.chance(1, 5) {
+                if let Some(x) = v.first().copied() {
+                    v.push(x); // duplicate
+                }
+            }
+            rng.shuffle(&mut v);
+            v
+        };
+        let cats = pickset(rng);
+        let mods = pickset(rng);
+        tags.push("custom_groups");
+        (World::Custom(Box::new(w), cats, mods), f)
+    } else {
+        (w, f)
+    }
 }
 
 /// like gen_world, but one time in five the world is a sub-ontology of the generated one;
